@@ -21,6 +21,17 @@ def run(pid, tier, seed):
       ident = {"clause": cl, "kind": m["kind"], "layer": ev["layer"],
                "input_range_inside_unit_interval": bool(ev.get("range")) and max(abs(ev["range"][0]), abs(ev["range"][1])) < 1, "weights": m["wq"].split("_")[0].rstrip("0123456789iu"),
                "bias": m["bq"] != "none"}
+      if "iq" in m:
+        ident["input_quantizer"] = m["iq"].rstrip("0123456789")
+      # two structural facts of the failing case that the recorded findings are keyed on
+      if ev.get("k") == "layer" and cl in ("preactivation_not_representable", "activation_outside_reported_type"):
+        t, obs = (ev["acc"], ev["pre"]) if cl.startswith("pre") else (ev["it"], ev["x"])
+        top = max((abs(p[0]), p[1]) for p in obs if p[0] != 0) if any(p[0] != 0 for p in obs) else (0, 0)
+        mant, e = top
+        while mant and mant % 2 == 0:
+          mant, e = mant // 2, e + 1
+        ident["value_is_exactly_two_to_the_int_bits"] = bool(mant == 1 and e == t["int"] and not t["po2"])
+        ident["input_type_int_bits_exceed_its_bits"] = ev["it"]["bits"] - ev["it"]["int"] - ev["it"]["sg"] < 0 and not ev["it"]["po2"]
       chk.violation(ident, {k: ev[k] for k in ev if k not in ("meta",)} | {"meta": m})
   for ev in events:
     chk.key(json.dumps([ev["meta"], ev["pattern"], ev["layer"], ev["k"]]))
